@@ -615,6 +615,16 @@ def check(run):
     run.check(okr, 'R4', 'reset-completes-pending-connect', T + '::incoming_packet:error', ipk.loc(),
               'no completion of m_connect_handler is reachable for an error packet: when the acceptor is closed while the connect waits in its queue (or cannot attach the connection), the reset it sends is queued as unreadable stream data and the connect never completes - neither matched nor refused',
               'an error packet for the pending connect completes it with p.ec')
+    # ... and, like the refusal at connect time, it leaves no usable connection: the channel is dropped on every path
+    # from that completion (a moved-from / assigned-empty channel counts like reset())
+    ch_drops = [c for c in ipk.calls() if (c.get('callee') or '').endswith('::reset') and q.render(ipk, c.get('obj')).replace('this->', '') == 'm_channel']
+    ch_drops += [a_.site for a_ in q.field_accesses(ipk, {T + '::m_channel'}) if a_.kind in ('assign', 'move')]
+    for f_ in comp:
+        g_ = q.guards_at(ipk, f_.site)
+        if any('type_t::error' in q.render(ipk, a_) and p_ for a_, p_ in g_):
+            run.check(q.any_precedes(ipk, ch_drops, f_.site) or q.must_follow(ipk, f_.site, ch_drops), 'R4', 'reset-leaves-no-channel', T + '::incoming_packet:error', ipk.loc(f_.site),
+                      'the connect that is completed with the acceptor\'s reset keeps its channel: remote_endpoint() answers the dialled endpoint and writes are accepted on a socket whose connect failed - a refused connect leaves a usable connection',
+                      'm_channel is dropped on every path from the completion')
     caq_ = fx.fn1(A + '::check_accept_queue')
     errp = [a_ for a_ in q.field_accesses(caq_, {'sim::aux::packet::type'}) if a_.kind == 'assign' and 'error' in q.render(caq_, a_.site)]
     chans = [a_.site for a_ in q.field_accesses(caq_, {'sim::aux::packet::channel'}) if a_.kind == 'assign']
